@@ -1,4 +1,92 @@
-import PytezosModel.Michelson.Interp.Impl
-import PytezosModel.Michelson.Interp.Spec
+import PytezosModel.Proofs.InterpRefine
+import PytezosModel.Proofs.InterpGuard
+/-! C01 — the interpreter computes the Michelson result, or fails with the FAILWITH value, that the
+reference semantics prescribes.
+
+`Impl.exec` mirrors the `execute` methods and the protected-prefix `MichelsonStack` of pytezos (tied to the
+code by the correspondence run); `Spec.eval` is the big-step reference semantics of the modelled core over a
+plain list (values carry their types; ill-typed configurations and running out of fuel are `err`).
+The modelled core is exactly the constructors of `Interp.Instr`.
+
+FULL STATEMENT (properties.jsonl): for every well-typed program … the interpreter ends with exactly the stack,
+or FAILWITH value, of the reference semantics.  What is proved is the full statement for every execution in
+which MAP is never applied to an *empty* list/map with a body that changes the element type
+(`Spec.eval (guard := true)`): there pytezos keeps the old element type on the (empty) result — its
+`MapInstruction` cannot know the new one — and a later EXEC/APPLY/CONS/COMPARE may fail its dynamic type
+assertion.  That case is a recorded open finding; `map_empty_counterexample` exhibits it on the mirror. -/
 namespace C01
+open Interp
+
+/-- **refinement, any protected prefix** (the form used inside DIP / DIG / DUG / DUP n):
+for every program, fuel bound, environment, visible stack `st` and protected prefix `pre`, if the reference
+semantics yields a stack or a FAILWITH value, the pytezos machine started on `pre ++ st` with `pre` protected
+yields the same stack under the same prefix, resp. the same FAILWITH value. -/
+theorem exec_refines_spec (env : Env) (fuel : Nat) (i : Instr) (pre st : List Val)
+    (h : Spec.eval true env fuel i st ≠ .err) :
+    Impl.exec env fuel i (stk pre st) = (Spec.eval true env fuel i st).map' (stk pre) :=
+  Interp.exec_refines_spec env fuel i pre st h
+
+/-- a REPL / contract run: final stack -/
+theorem run_ok (env : Env) (fuel : Nat) (i : Instr) (st st' : List Val)
+    (h : Spec.eval true env fuel i st = .ok st') : Impl.run env fuel i st = .ok st' := by
+  have := Interp.exec_refines_spec env fuel i [] st (by rw [h]; intro e; cases e)
+  simp only [stk, List.nil_append, List.length_nil] at this
+  simp [Impl.run, this, h, Res.map', Res.bind, stk]
+
+/-- a REPL / contract run: FAILWITH value -/
+theorem run_failwith (env : Env) (fuel : Nat) (i : Instr) (st : List Val) (v : Val)
+    (h : Spec.eval true env fuel i st = .failed v) : Impl.run env fuel i st = .failed v := by
+  have := Interp.exec_refines_spec env fuel i [] st (by rw [h]; intro e; cases e)
+  simp only [stk, List.nil_append, List.length_nil] at this
+  simp [Impl.run, this, h, Res.map', Res.bind]
+
+/-- the guard only removes behaviours: a guarded reference execution is a reference execution -/
+theorem guarded_is_reference (env : Env) (fuel : Nat) (i : Instr) (st : List Val)
+    (h : Spec.eval true env fuel i st ≠ .err) : Spec.eval false env fuel i st = Spec.eval true env fuel i st :=
+  Interp.eval_guard env fuel i st h
+
+/-- corollary in terms of the unguarded reference semantics -/
+theorem run_eq_reference (env : Env) (fuel : Nat) (i : Instr) (st : List Val)
+    (h : Spec.eval true env fuel i st ≠ .err) :
+    Impl.run env fuel i st = Spec.eval false env fuel i st := by
+  rw [guarded_is_reference env fuel i st h]
+  cases hq : Spec.eval true env fuel i st with
+  | err => exact absurd hq h
+  | ok st' => exact run_ok env fuel i st st' hq
+  | failed v => exact run_failwith env fuel i st v hq
+
+/-- the stack discipline alone: DIP n / DIG n / DUG n / DUP n through `protect`/`restore` are `take`/`drop`
+on the visible stack, for every depth, stack and prefix -/
+theorem dip_n_spec (env : Env) (fuel n : Nat) (body : Instr) (pre st st' : List Val) (hn : n ≤ st.length)
+    (h : Spec.eval true env fuel body (st.drop n) = .ok st') :
+    Impl.exec env (fuel + 1) (.DIPN n body) (stk pre st) = .ok (stk pre (st.take n ++ st')) := by
+  have hs : Spec.eval true env (fuel + 1) (.DIPN n body) st = .ok (st.take n ++ st') := by
+    simp [Spec.eval, hn, h]
+  rw [Interp.exec_refines_spec env (fuel + 1) (.DIPN n body) pre st (by rw [hs]; intro e; cases e), hs]
+  rfl
+
+def env0 : Env := { amount := 0, balance := 0, sender := [], source := [], self := [], now := 0, level := 1, chainId := [] }
+
+/-- the recorded finding on the mirror: `NIL timestamp ; MAP { DROP ; PUSH int 0 }` — the reference result is an
+empty `list int`, the pytezos machine leaves an empty `list timestamp` -/
+theorem map_empty_counterexample :
+    Spec.eval false env0 5 (.seq [.NIL .timestamp, .MAP (.seq [.DROP, .PUSH .int (.num .int 0)])]) []
+      = .ok [.list .int []] ∧
+    Impl.run env0 5 (.seq [.NIL .timestamp, .MAP (.seq [.DROP, .PUSH .int (.num .int 0)])]) []
+      = .ok [.list .timestamp []] ∧
+    Spec.eval true env0 5 (.seq [.NIL .timestamp, .MAP (.seq [.DROP, .PUSH .int (.num .int 0)])]) [] = .err := by
+  refine ⟨?_, ?_, ?_⟩ <;>
+    simp [Spec.eval, Spec.evalSeq, Spec.evalMap, Spec.step, Spec.listOf, Spec.mapOutTy, Typing.typeInstr, Typing.typeSeq,
+      Typing.step, Typing.checkVal, Impl.run, Impl.exec, Impl.execSeq, Impl.step, Impl.mapLoop, Stack.push, Stack.pop1,
+      Stack.pop, Res.bind, typeOf]
+
+-- non-vacuity: a loop, a DIP under a protected prefix, a lambda call and a FAILWITH, all within the guard
+example : Spec.eval true env0 20
+    (.seq [.PUSH .int (.num .int 3), .PUSH .int (.num .int 4), .DIP (.seq [.DUP, .ADD]), .PAIR,
+           .LAMBDA (.pair .int .int) .int (.seq [.UNPAIR, .MUL]), .SWAP, .EXEC]) []
+    = .ok [.num .int 24] := by
+  simp [Spec.eval, Spec.evalSeq, Spec.step, Spec.addTy, Spec.mulTy, Spec.numOk, typeOf, Res.bind]
+example : Spec.eval true env0 20 (.seq [.PUSH .string (.str [97]), .FAILWITH]) [] = .failed (.str [97]) := by
+  simp [Spec.eval, Spec.evalSeq, Spec.step, Res.bind]
+
 end C01
